@@ -479,6 +479,8 @@ func checkC20(c *Ctx, r *Report) {
 	ruleLayoutSilent(c, r, "layout-silent", spec)
 	ruleStringOpaque(c, r, "string-opaque")
 	ruleStickyTable(c, r, "token-adjacency")
+	ruleChunkImmutable(c, r, "input-verbatim")
+	ruleNoLookback(c, r, "no-lookback")
 	ruleLexPrimitivesOnly(c, r, "lexer-primitives")
 	ruleSemicolon(c, r, "semicolon")
 	ruleTokenTables(c, r, "token-tables", spec)
@@ -688,4 +690,90 @@ func ruleStatementTokens(c *Ctx, r *Report, rule string) {
 			r.bad(rule, class, fmt.Sprintf("decl() has a diagnostic-free path ending in %s that is no statement form of the grammar (%s)", class, strings.Join(sortedKeys(got[class]), " | ")), pos)
 		}
 	}
+}
+
+// ruleNoLookback: what a rule function compiles may depend on the operator
+// token it was dispatched for (p.prev read on entry) but not on the tokens of
+// its operands: after a sub-expression has been parsed, p.prev is the
+// operand's last token — ')' when the operand is parenthesised — so reading
+// its type or text there makes redundant parentheses change the outcome.
+func ruleNoLookback(c *Ctx, r *Report, rule string) {
+	r.rule(rule, 1, "in the parser no function reads p.prev.typ or p.prev.val after it has parsed a sub-expression (parsePrecedence / expr) on the same path: the compiled code of an operator does not depend on how its operands are spelled (parenthesised or not)")
+	n, bad := 0, 0
+	for _, it := range c.sortedDecls() {
+		obj, fd := it.obj, it.fd
+		if obj.Pkg() == nil || obj.Pkg().Path() != bclPath || fd.Body == nil {
+			continue
+		}
+		// positions of sub-expression parses and of p.prev.{typ,val} reads, in source order within the function
+		var parses []token.Pos
+		type rd struct {
+			pos  token.Pos
+			what string
+		}
+		var reads []rd
+		ast.Inspect(fd.Body, func(x ast.Node) bool {
+			switch x := x.(type) {
+			case *ast.CallExpr:
+				switch c.calleeName(x) {
+				case "parser.parsePrecedence", "expr":
+					parses = append(parses, x.End())
+				}
+			case *ast.SelectorExpr:
+				fp := c.fieldPath(x)
+				if fp == "<parser>.prev.typ" || fp == "<parser>.prev.val" {
+					reads = append(reads, rd{x.Pos(), fp})
+				}
+			}
+			return true
+		})
+		if len(parses) == 0 {
+			continue
+		}
+		n++
+		name := qname(obj)
+		if name == "parser.parsePrecedence" {
+			continue // the dispatcher itself: reads p.prev right after advance(), by design (dispatch axiom, C10)
+		}
+		for _, rdx := range reads {
+			after := false
+			for _, p := range parses {
+				if p <= rdx.pos {
+					after = true
+				}
+			}
+			// an advance()/consume()/match() between the parse and the read makes p.prev a token this function consumed itself
+			if after && !c.tokenConsumedBetween(fd, parses, rdx.pos) {
+				bad++
+				r.bad(rule, name+"/"+strings.TrimPrefix(rdx.what, "<parser>."), fmt.Sprintf("%s reads %s after parsing a sub-expression: the value is the operand's last token, which differs between `x` and `(x)`", name, strings.TrimPrefix(rdx.what, "<parser>.")), c.pos(rdx.pos))
+			}
+		}
+	}
+	if bad == 0 {
+		r.ok(rule, "parser", fmt.Sprintf("%d functions parse sub-expressions; none looks back at the operand's tokens", n))
+	}
+}
+
+// tokenConsumedBetween: between the last sub-expression parse before pos and
+// pos, the function itself consumed a token (advance/consume/successful match).
+func (c *Ctx) tokenConsumedBetween(fd *ast.FuncDecl, parses []token.Pos, pos token.Pos) bool {
+	last := token.NoPos
+	for _, p := range parses {
+		if p <= pos && p > last {
+			last = p
+		}
+	}
+	found := false
+	ast.Inspect(fd.Body, func(x ast.Node) bool {
+		call, ok := x.(*ast.CallExpr)
+		if !ok || call.Pos() < last || call.End() > pos {
+			return true
+		}
+		switch c.calleeName(call) {
+		case "parser.advance", "parser.consume", "parser.match", "parser.matchEnd":
+			found = true
+		}
+		return true
+	})
+	return found
 }
